@@ -6,6 +6,8 @@ import (
 	"errors"
 	"fmt"
 	"regexp"
+	"runtime"
+	"runtime/debug"
 	"strconv"
 	"strings"
 	"time"
@@ -185,7 +187,7 @@ func Check() *common.Check {
 		MemLimit:  8 << 30, // the token-limit boundary inputs are trees of a million tokens
 		Rule: fmt.Sprintf("inputs with at least one non-semicolon token: the sqlgen clause/DML/DDL/hole/nesting statements (valid), every single-token deletion, duplication and replacement by 7 hostile tokens of the first 250 (quick) / 1500 (thorough) distinct statements, "+
 			"all scripts of <=3 items over 3 valid + 2 invalid statements and the empty item (stray semicolons), 14 lexically invalid inputs; each through %d entry points compared with gosqlx.Parse (accept/reject, canonical tree, structured error code); "+
-			"all batches of length <=3 over 4 valid + 3 invalid inputs, and every generated statement (once and twice) followed by the deepest nesting a new parser accepts, through ParseMultiple / ValidateMultiple. distinct = distinct input text; non-trivial = every executed case (each runs all entry points)", len(eps)),
+			"all batches of length <=3 over 4 valid + 3 invalid inputs, and every generated statement (once and twice) followed by the deepest nesting a new parser accepts, through ParseMultiple / ValidateMultiple; every entry point on 6 inputs that yield no tree (once, twice) followed by one ParseMultiple batch of three statements whose containers must be distinct and equal to the individual trees. distinct = distinct input text; non-trivial = every executed case (each runs all entry points)", len(eps)),
 		Assume: []string{"ParseWithRecovery is compared through its first error", "failure index of a batch is read from the 'query <i>' prefix of the batch error"},
 		Enumerate: func(e *common.Enum) {
 			seen := map[string]bool{}
@@ -403,6 +405,54 @@ func Check() *common.Check {
 						c.Input(key)
 						compareAll(c, sql, "token-limit:"+shape)
 					})
+				}
+			}
+			// primed batches: what an entry point does with pooled containers on its way out of a call that yields no tree
+			// (empty, blank, comment-only, semicolon-only, truncated input) is visible only afterwards, when several trees
+			// are alive at once.  Every entry point x 6 such inputs, once and twice, then one ParseMultiple batch of three
+			// different statements (one P, collector off, pools emptied first): three distinct containers, each equal to
+			// the tree the statement gives alone
+			batchQs := []string{"SELECT c1 FROM t1 WHERE c2 = 1", "DELETE FROM t2 WHERE c3 = 2", "UPDATE t3 SET c4 = 3"}
+			var batchRef []string
+			for _, q := range batchQs {
+				batchRef = append(batchRef, safeRun(eps[0], q).tree)
+			}
+			for _, ep := range eps {
+				for _, primer := range []string{"", " \n", "-- c", ";", ";;", "SELECT"} {
+					for _, times := range []int{1, 2} {
+						ep, primer, times := ep, primer, times
+						e.Do(fmt.Sprintf("primed-batch|%s|%q|%d", ep.name, primer, times), func(c *common.Ctx) {
+							c.Input(fmt.Sprintf("%s(%q) x%d, then ParseMultiple of three statements", ep.name, primer, times))
+							runtime.GOMAXPROCS(1)
+							defer debug.SetGCPercent(debug.SetGCPercent(-1))
+							runtime.GC()
+							runtime.GC()
+							for i := 0; i < times; i++ {
+								safeRun(ep, primer)
+							}
+							trees, err := gosqlx.ParseMultiple(batchQs)
+							if err != nil || len(trees) != len(batchQs) {
+								c.Fail("primed-batch-rejected:"+ep.name, fmt.Sprintf("ParseMultiple of three accepted statements fails afterwards: %v", err))
+								return
+							}
+							for i := range trees {
+								for j := i + 1; j < len(trees); j++ {
+									if trees[i] == trees[j] {
+										c.Fail("primed-batch-shared-container:"+ep.name, fmt.Sprintf("after %s(%q) the trees of items %d and %d of one batch are the same *ast.AST", ep.name, primer, i, j))
+										return
+									}
+								}
+							}
+							for i := range trees {
+								if got := sqlgen.DumpNorm(trees[i].Statements); got != batchRef[i] {
+									c.Fail("primed-batch-tree-mismatch:"+ep.name, fmt.Sprintf("after %s(%q) item %d of the batch differs from the statement parsed alone %s", ep.name, primer, i, sqlgen.FirstDiff(batchRef[i], got)))
+									return
+								}
+							}
+							c.Outcome("primed-batch")
+							c.NonTrivial()
+						})
+					}
 				}
 			}
 			// batches at the nesting boundary: every generated statement followed by the deepest nesting a new
